@@ -186,7 +186,22 @@ def proof_step(pid, theorems, tier='quick'):
     res['log'] = out[-4000:]
     if rc != 0:
         # find which declarations failed
-        res['broken'].append((mod, 'lake build failed: ' + out[-1500:]))
+        # name the declarations that no longer check: each `error: <file>:<line>:` belongs to the last theorem / def that starts
+        # at or before that line
+        failing = []
+        for m in re.finditer(r'error: (HranoModel/[\w/]+\.lean):(\d+):', out):
+            try:
+                lines = open(os.path.join(LEAN_DIR, m.group(1))).read().split('\n')[:int(m.group(2))]
+            except OSError:
+                continue
+            for ln in reversed(lines):
+                d = re.match(r'\s*(?:private\s+)?(?:theorem|lemma|def|example|instance)\s+([\w.\']+)?', ln)
+                if d:
+                    name = '%s: %s' % (m.group(1)[len('HranoModel/'):], d.group(1) or 'example')
+                    if name not in failing:
+                        failing.append(name)
+                    break
+        res['broken'].append((mod, ('no longer checks: ' + '; '.join(failing[:12]) + ' -- ' if failing else '') + 'lake build failed: ' + out[-1500:]))
         # try to identify theorems that still check by auditing anyway (olean may be missing)
         return res
     # forbidden tokens
